@@ -154,9 +154,10 @@ def executed (p : Program) (t : Trace) : List Stage := (stageIds t).filterMap (f
 def ffNow (p : Program) (ff0 : Bool) (t : Trace) : Bool :=
   ff0 || (executed p t).any (fun st => st.acts.any actIsExpect)
 
-/-- every exception handed to the runner in this run, in order; the forced failure last -/
+/-- every exception handed to the runner in this run, in order; the forced failure last (it is due whenever
+`force_failure` is set at the end of the run - also when setUp gave up, whatever it gave up with) -/
 def raisedAll (p : Program) (ff0 : Bool) (t : Trace) : List Exc :=
-  (executed p t).flatMap (stageExcs p) ++ (if setUpOk p && ffNow p ff0 t then [forcedFailure] else [])
+  (executed p t).flatMap (stageExcs p) ++ (if ffNow p ff0 t then [forcedFailure] else [])
 
 /-- a per-run clause lifted to the list of traces of repeated runs (`force_failure` threads through) -/
 def perRun (c : Program → Bool → Trace → Bool) (p : Program) : Bool → List Trace → Bool
